@@ -215,10 +215,19 @@ def run(ctx):
     ctx.ob('C07.2', ne, 'no-loop-in-next_event', not any(True for h in ne.loops()), 'Session::next_event emits at most one frame per call (no loop)')
 
     # ---------------------------------------------------------------- C07.3
-    sel = rs.calls(r'ContinuityStore::append_context_selection_decided$')
-    comp = rs.calls(r'ContinuityStore::append_context_compiled$')
     loop = rs.calls(r'^ripd::session::run_openresponses_agent_loop$')
-    cur = rs.calls(r'ContinuityStore::append_provider_cursor_updated$')
+
+    def via_helper(rx):
+        # the append itself, or a helper run_session calls for it (not the provider loop / tool runner)
+        out = rs.calls(rx)
+        for s_ in rs.sites():
+            if s_.callee in P.fns and not s_.callee.startswith('ripd::continuities::') and not re.search(r'run_openresponses_agent_loop$|ToolRunner::', s_.callee):
+                if any(re.search(rx, y) for y in P.reach_fns([s_.callee], stop_rx=r'^ripd::continuities::')):
+                    out.append(s_)
+        return out
+    sel = via_helper(r'ContinuityStore::append_context_selection_decided$')
+    comp = via_helper(r'ContinuityStore::append_context_compiled$')
+    cur = via_helper(r'ContinuityStore::append_provider_cursor_updated$')
     if not (sel and comp and loop and cur):
         raise CheckError('C07.3: run_session lacks one of selection_decided / context_compiled / agent loop / cursor_updated')
     appenders = E.sites_with(rs, 'TruthAppend')
@@ -242,6 +251,26 @@ def run(ctx):
     # compiled bundle emitted only when compile succeeded: selection/compiled not in loops
     for c in sel + comp + cur:
         ctx.ob('C07.3', rs, 'once:' + c.name, not rs.in_loop(c.bb), '%s is outside loops (once per run)' % c.name, line=c.line)
+
+    # the ordered lifecycle frames are written by run_session itself and by nothing it calls: a
+    # cursor update (or a second selection / compile / run_ended) from inside the provider loop or
+    # the tool runner would precede or repeat frames whose order the property fixes
+    ORDERED = r'ContinuityStore::append_(provider_cursor_updated|context_selection_decided|context_compiled|run_ended|run_spawned)$'
+    inner_roots = sorted({s_.callee for s_ in rs.sites() if re.search(r'run_openresponses_agent_loop$|ToolRunner::', s_.callee)})
+    par_run = P.reach_fns(inner_roots)
+    inner = []
+    for pth in sorted(par_run):
+        g = P.fns.get(pth)
+        if g is None or g is rs or g.path.startswith('ripd::continuities::'):
+            continue
+        for c in g.calls(ORDERED):
+            inner.append((g, c))
+    ncallers = len(P.callers(ORDERED))
+    ctx.floor('C07.3', 'call sites of the ordered lifecycle appends in the workspace', ncallers, 5)
+    ctx.ob('C07.3', rs, 'ordered-frames-not-from-loop', not inner,
+           '%d function(s) reachable from the provider loop and the tool runner scanned; %s' % (len(par_run), 'none of them appends selection / compiled / cursor / run_ended / run_spawned frames' if not inner else
+           '%s (inside the provider loop / tool runner, line %d) ALSO appends %s: the thread can record it before the tool side effects, or twice' % (inner[0][0].path, inner[0][1].line, inner[0][1].name)),
+           line=inner[0][1].line if inner else rs.line)
 
     # ---------------------------------------------------------------- C07.4
     pm = P.body('ripd::server::thread_post_message')
@@ -331,6 +360,19 @@ def run(ctx):
     # ---------------------------------------------------------------- C07.6
     hooks = [s for s in P.callers(r'^rip_kernel::Runtime::register_hook$|^rip_kernel::hooks::HookEngine::register$') if not s.fn.path.startswith('rip_kernel::')]
     ctx.ob('C07.6', 'workspace', 'no-production-hooks', not hooks, 'Runtime::register_hook callers outside rip_kernel: %s' % [s.fn.path for s in hooks])
+
+    # ---------------------------------------------------------------- C07.8
+    from .common import char_boundary_ops
+    ctx.rule('C07.8', 'the run cannot die on text it does not control: in everything reachable from run_session (provider pipe, agent loop, tool runner, store appends) there is no byte-offset string operation that panics off a UTF-8 character boundary (String::truncate / split_off / insert / remove / drain / replace_range, str::split_at, str range indexing) unless the same function derives or tests the offset (is_char_boundary, char_indices, find, len_utf8). A panic in the spawned run task leaves the session without its end frame and the run without run_ended.')
+    par = P.reach_fns([rs.path])
+    scope = [P.fns[p] for p in sorted(par) if p in P.fns and P.fns[p].crate.startswith('rip') and P.fns[p].crate not in ('rip', 'rip_tui', 'rip_cli')]
+    ops = char_boundary_ops(P, scope)
+    witness = char_boundary_ops(P, [f for f in P.fns.values() if f.crate in ('rip', 'rip_tui')])
+    ctx.ob('C07.8', 'workspace', 'matcher-alive', len(witness) >= 1, 'the same matcher finds %d byte-offset string operation(s) in the terminal client crates (positive example); %d function(s) reachable from run_session scanned, %d operation(s) found there' % (len(witness), len(scope), len(ops)))
+    for (f, s_, g) in ops:
+        ctx.ob('C07.8', f, 'char-boundary:' + s_.name, g,
+               '%s on run-path text %s' % (s_.name, 'with the offset derived / tested in the same function' if g else
+                                           'with an UNCHECKED byte offset: a multi-byte character straddling it panics the run task — no session_ended, no continuity_run_ended'), line=s_.line)
 
 
 def _reads(f, op):
